@@ -229,6 +229,14 @@ func runA(c *fw.Ctx, chunk *last.Chunk, g *lgen.Gen, base Case, onlyK int, onlyK
 			cs.K, cs.Kind = k, kind
 			c.Begin(cs)
 			fcfg := &lrun.Config{OnState: onState, OnModel: onModel, MaxSteps: 2000000, FaultAt: k, FaultKind: kind}
+			if strings.HasPrefix(kind, "go") && (k+base.Index)%2 == 1 {
+				// the option only adds Go's stack to what the Go caller can print: where a
+				// panic of a host function is delivered must not depend on it
+				fcfg.Opts.IncludeGoStackTrace = true
+				if count {
+					c.Count("A_go_faults_with_IncludeGoStackTrace", 1)
+				}
+			}
 			// the AST is re-rendered with the same lines; the chunk can be reused by the model
 			fm := lrun.RunModel(chunk, fcfg)
 			if fm.Abort != "" {
